@@ -44,7 +44,7 @@ def requests():
         Request("src/IO/InterfileHeader.cxx", fn=["stir::InterfileHeader::.*", "stir::MinimalInterfileHeader::.*", "stir::InterfilePDFSHeader::.*"], files=["/repo/src/IO/InterfileHeader.cxx"]),
         Request("src/IO/InterfilePDFSHeaderSPECT.cxx", fn=["stir::InterfilePDFSHeaderSPECT::.*"], files=["/repo/src/IO/InterfilePDFSHeaderSPECT.cxx"]),
         Request("src/buildblock/interfile_keyword_functions.cxx", fn=["stir::standardise_interfile_keyword"]),
-        Request("src/IO/interfile.cxx", fn=["stir::write_interfile_.*"], files=["/repo/src/IO/interfile.cxx"]),
+        Request("src/IO/interfile.cxx", fn=["stir::write_interfile_.*", "stir::write_basic_interfile_image_header"], files=["/repo/src/IO/interfile.cxx"]),
         Request("src/buildblock/ProjData.cxx", fn=["stir::ProjData::.*", "stir::apply_func"], files=["/repo/src/buildblock/ProjData.cxx"]),
         Request("src/buildblock/ExamInfo.cxx", fn=["stir::ExamInfo::.*"]),
         # file-local helpers of the two backing stores (whatever they are called)
@@ -824,6 +824,47 @@ def rule_p_segment_checked_on_entry(ctx, units):
     return n
 
 
+def rule_q_sibling_writers_exam_info(ctx, image_writer, pdfs_writer):
+    """The image header writer and the projection-data header writer serialise the same ExamInfo, and one parser (InterfileHeader)
+    reads the exam information of both.  Every key the image writer emits with a value taken from the ExamInfo, and every
+    write_interfile_* helper it hands the ExamInfo to (other than the image-specific ones), must appear in the projection-data writer
+    as well - otherwise that part of the exam information does not survive writing projection data with their header (F67)."""
+    from rules.C10 import _emissions
+
+    RULE = "C02.q-header-writers-agree-on-exam-information"
+
+    def exam_items(f):
+        defs = LocalDefs(f)
+
+        def exam(n):
+            return any("ExamInfo" in (m.type or "") for m in data_slice(f, [n], defs))
+
+        keys, helpers, allkeys = {}, {}, set()
+        for k, _vect, m, _top, vals, _inline in _emissions(f):
+            allkeys.add(k)
+            if any(exam(v) for v in vals):
+                keys.setdefault(k, m)
+        for c in f.calls():
+            if (c.callee or "").startswith("stir::write_interfile_") and any(exam(a) for a in c.call_args()):
+                helpers.setdefault(c.callee, c)
+        return keys, helpers, allkeys
+
+    ik, ih, _ = exam_items(image_writer)
+    pk, ph, pall = exam_items(pdfs_writer)
+    n = 0
+    for k, m in sorted(ik.items()):
+        ok = k in pall
+        ctx.ob(RULE, pdfs_writer.qn, "key:" + k, ok, (pdfs_writer.where() if not ok else m.where()), "written by both header writers" if ok else "the image header writer records `%s` from the exam information (line %d) and the header parser reads it for all data, but the projection-data header writer never writes it: the value is lost when projection data are written with their header and read back" % (k, m.line))
+        n += 1
+    for h, c in sorted(ih.items()):
+        if "image" in h.split("::")[-1]:
+            continue
+        ok = h in ph
+        ctx.ob(RULE, pdfs_writer.qn, "helper:" + h.split("::")[-1], ok, (pdfs_writer.where() if not ok else c.where()), "called by both header writers" if ok else "the image header writer hands the exam information to %s (line %d), the projection-data header writer does not: that part of the exam information is lost in the round trip" % (h.split("::")[-1], c.line))
+        n += 1
+    return n
+
+
 def run(ctx):
     ctx.explanation = (
         "Decides structural necessary conditions of C02 from the source: (a) all five bin coordinates are range-checked "
@@ -877,6 +918,12 @@ def run(ctx):
         ctx.fail_broken("anchor write_basic_interfile_PDFS_header(.., const ProjDataFromStream&) not found")
     else:
         rule_g_header_segment_order(ctx, hw[0])
+        iw = [f for f in (helpers.functions if helpers else []) if f.short == "write_basic_interfile_image_header" and f.body is not None and "ExamInfo" in f.sig]
+        if not iw:
+            ctx.fail_broken("anchor write_basic_interfile_image_header(.., const ExamInfo&, ..) not found")
+        else:
+            rule_q_sibling_writers_exam_info(ctx, iw[0], hw[0])
+            ctx.require_count("C02.q-header-writers-agree-on-exam-information", 9)
     # h: every key the projection-data header writer (and the exam-information helpers it calls) emits is registered by the reader
     # classes with the same vectorisation (the writer/reader key-table agreement of C10.a, applied to the PDFS header)
     if hdr is not None and kwu is not None and helpers is not None and hdrspect is not None:
